@@ -97,6 +97,36 @@ fn run(ctx: &mut Ctx) {
             check(ctx, &b, "mask");
         }
     });
+    // every mask with exactly two channels (block stride / end-marker arithmetic special-cases small counts)
+    ctx.cases("pairs", 79, |ctx, i, rng| {
+        let a = i as u16 + 1;
+        for b in a + 1..=79 {
+            let rs = *rng.pick(&[0u16, 1, 2, 3, 4, 5, 511]);
+            let mut p = Pwb::new(['A', 'B', 'C', 'D'][(b % 4) as usize], *rng.pick(&macs), rs, vec![(a, samples(rng, rs, 0)), (b, samples(rng, rs, 1))]);
+            p.threshold_mask = 1u128 << (b - 1);
+            check(ctx, &p.encode(), "two channels");
+            if b == a + 1 {
+                // bad end marker for every small sample count, all four marker bytes
+                for rs in [0u16, 1, 2] {
+                    for k in 0..4 {
+                        let mut q = Pwb::new('A', macs[0], rs, vec![(a, samples(rng, rs, 0)), (b, samples(rng, rs, 1))]);
+                        q.end_marker[k] = 0xCD;
+                        check(ctx, &q.encode(), "bad end marker, small sample count");
+                        let mut q = Pwb::new('A', macs[0], rs, vec![]);
+                        q.end_marker[k] = 0;
+                        check(ctx, &q.encode(), "bad end marker, empty mask");
+                    }
+                }
+            }
+        }
+        // three channels as well
+        let c = 1 + (i as u16 + 40) % 79;
+        let mut ids = vec![a, c, 1 + (i as u16 + 11) % 79];
+        ids.sort();
+        ids.dedup();
+        let p = Pwb::new('B', macs[1], 3, ids.iter().map(|c| (*c, samples(rng, 3, 0))).collect());
+        check(ctx, &p.encode(), "three channels");
+    });
     ctx.cases("structured", 32, |ctx, i, rng| {
         let mac = macs[(i as usize * 7) % macs.len()];
         // full mask, over-large sample counts
